@@ -152,7 +152,7 @@ def cases(tier, seed):
     d1 = [t for t in d1 if not degenerate(t)]
     d2 = [t for t in d2 if not degenerate(t)]
     subs = [t for t in subs if not degenerate(t)]
-    out = [Case("depth1:all", trees=d1, seed=seed)]
+    out = [Case("depth1:all", trees=d1, seed=seed), Case("equality:keyword-arguments", trees=[], seed=seed, kind="kwargs")]
     if tier == "quick":
         # every (outer op, leaf kind, side) x inner trees covering every inner op and every leaf pair class
         inner = [s for s in subs if s[1] in ("+", "*")] + [s for s in subs if s[2][1] == "Pt" or s[3][1] == "Pt"]
@@ -206,7 +206,32 @@ def show(t):
     return f"({show(t[2])} {t[1]} {show(t[3])})"
 
 
+def kw_leaf(x, y, *, a, b):
+    return a * x + b * y
+
+
+def body_kwargs(H, case):
+    """equality is structural: the keyword arguments of a leaf are compared by name (not by the order in which
+    the caller wrote them), and so are the expressions built on such leaves"""
+    from tdgl.parameter import Parameter
+
+    a, b = H.real("ka", lo=0.5, hi=1.5), H.real("kb", lo=2.0, hi=3.0)  # a != b on the whole range
+    a, b = (float(a), float(b)) if H.mode != "sym" else (1.0, 2.5)  # (Parameter insists on plain numbers for comparisons)
+    P1, P2 = Parameter(kw_leaf, a=a, b=b), Parameter(kw_leaf, b=b, a=a)
+    Q = Parameter(kw_leaf, b=a, a=b)  # values exchanged: a different function
+    H.prove("same keyword arguments written in another order: equal", P1 == P2 and P2 == P1)
+    H.prove("exchanged keyword values: not equal", not (P1 == Q) and not (Q == P1))
+    other = Parameter(f2)
+    for nm, op in OPS:
+        H.prove(f"(leaf {nm} g) with the keywords in another order: equal", op(P1, other) == op(P2, other) and op(other, P1) == op(other, P2))
+        H.prove(f"(leaf {nm} g) with exchanged keyword values: not equal", not (op(P1, other) == op(Q, other)) and not (op(other, P1) == op(other, Q)))
+    x, y = H.real("x", lo=-2.0, hi=2.0), H.real("y", lo=-2.0, hi=2.0)
+    same_value(H, "equal leaves evaluate equally", P1(x, y), P2(x, y))
+
+
 def body(H, case):
+    if case.params.get("kind") == "kwargs":
+        return body_kwargs(H, case)
     import tdgl
     from tdgl.parameter import CompositeParameter, Parameter
 
